@@ -42,3 +42,9 @@ Proof. intros H. apply (CReach_INV s H). Qed.
 From Verif Require Import Catalog.Orphans.
 Theorem CReach_NoOrph s : CReach s -> NoOrph s.
 Proof. induction 1 as [|idx c s _ IH]; [apply NoOrph_st0|apply apply_NoOrph; exact IH]. Qed.
+
+From Verif Require Import Catalog.Spec Catalog.Usage.
+(* the node, instance, service-name, connect-kind, connect-native and billable counters equal the
+   counts recomputed from the rows, in every reachable state *)
+Theorem usage_recomputed s : CReach s -> forall id, id ∈ svc_usage_ids -> stored_usage s id = recompute_usage s id.
+Proof. induction 1 as [|idx c s _ IH]; [apply UsageOK_st0|apply apply_UsageOK; exact IH]. Qed.
